@@ -260,6 +260,29 @@ pub fn gen_work(ch: &mut Chooser, kind: Kind, tier: Tier) -> Work {
     } else {
         0.0
     };
+    let model_drawn = if !random_expr && ch.odds("bundled_model", 1, 14) {
+        Some(match kind {
+            Kind::D2 => *ch.pick(
+                "model_2d",
+                &["hi.vm", "quarter.vm", "tanglecube.vm", "hi.vm"],
+            ),
+            _ => *ch.pick(
+                "model_3d",
+                &["tanglecube.vm", "bear.vm", "colonnade.vm", "tanglecube.vm"],
+            ),
+        })
+    } else {
+        None
+    };
+    // the 600-800 clause models are meshed to depth 3 at most: a depth-5 JIT
+    // build of `bear` costs seconds, and a run executes it a dozen times
+    let depth = if kind == Kind::Mesh
+        && matches!(model_drawn, Some("bear.vm") | Some("colonnade.vm"))
+    {
+        depth.min(3)
+    } else {
+        depth
+    };
     Work {
         kind,
         sg,
@@ -274,20 +297,7 @@ pub fn gen_work(ch: &mut Chooser, kind: Kind, tier: Tier) -> Work {
         z,
         depth,
         random_expr,
-        model: if !random_expr && ch.odds("bundled_model", 1, 14) {
-            Some(match kind {
-                Kind::D2 => *ch.pick(
-                    "model_2d",
-                    &["hi.vm", "quarter.vm", "tanglecube.vm", "hi.vm"],
-                ),
-                _ => *ch.pick(
-                    "model_3d",
-                    &["tanglecube.vm", "bear.vm", "colonnade.vm", "tanglecube.vm"],
-                ),
-            })
-        } else {
-            None
-        },
+        model: model_drawn,
         // regrowth is exercised heavily by E2; here only a share of the
         // workloads use it (every regrow is an mmap/munmap pair, which
         // serialises the 16 simulation threads on the process mmap lock)
@@ -1054,6 +1064,9 @@ pub fn run_c09(st: &Shared, tier: Tier) -> RunReport {
     let work = gen_work(&mut st.borrow_mut().ch, kind, tier);
     let b = build(&work);
     rep.sample = work.describe();
+    if std::env::var("VERIF_DEBUG").is_ok() {
+        eprintln!("C09 workload: {}", rep.sample);
+    }
 
     // (r) sequential reference
     let reference = match exec(st, &b, &work, None, CancelPlan::Never) {
